@@ -5,7 +5,7 @@ from .common import Run, split_spec, all_flags, corpus_cases, generic_replay, pa
 
 PROP = "C08"
 MODULE = "PLS.Props.C08"
-THEOREMS = ["PLS.C08_resolve_perm", "PLS.C08_defAtLine_perm", "PLS.C08_same_file_last", "PLS.C08_statement_false"]
+THEOREMS = ["PLS.C08_resolve_perm", "PLS.C08_ownDefAt_perm", "PLS.C08_same_file_last", "PLS.C08_statement_false"]
 RULE = ("each generated workspace (colliding fixture names by construction) is indexed under several permutations of "
         "the per-file analysis order, with analyze_file and with the scan's no-cleanup path; the full answer "
         "battery (go-to-definition at every column of usage-bearing lines, references per definition, available "
